@@ -7,6 +7,8 @@ From PS Require Import Lib.Base Lib.Struct Generated.Consts Model.SdTypes Model.
 (* ------------------------------------------------------------------ loop primitives *)
 (* out is kept newest-first (cons); StackIO reverses it when printing *)
 Definition emit (e : event) (w : world) : world := set_out ((now w, e) :: out w) w.
+(* ghost history, newest first *)
+Definition ghost (g : gev) (w : world) : world := set_glog ((now w, g) :: glog w) w.
 Definition call_soon (h : handle) (w : world) : world := set_ready (ready w ++ [(None, h)]) w.
 Definition call_later (delay : N) (h : handle) (w : world) : N * world :=
   let tid := next_id w in
@@ -67,7 +69,7 @@ Definition send_sd (entries : list sdentry) (remote : dest) (w : world) : world 
   | [] => w
   | _ =>
       let '((flag, sid), s') := assign_outgoing (sess w) remote in
-      let w1 := set_sess s' w in
+      let w1 := set_sess s' (ghost (GSend entries remote flag sid) w) in
       match sd_datagram entries flag sid with
       | Ok b => emit (ESent remote b) w1
       | Err e => emit (ERaised (err_code e)) w1
@@ -75,8 +77,8 @@ Definition send_sd (entries : list sdentry) (remote : dest) (w : world) : world 
   end.
 
 (* ------------------------------------------------------------------ SendCollector / queue_send *)
-Definition queue_send (e : sdentry) (remote : dest) (w : world) : world :=
-  if t_collect (cfg w) =? 0 then send_sd [e] remote w else
+Definition queue_core (e : sdentry) (remote : dest) (w : world) : world :=
+  if t_collect (cfg w) =? 0 then send_sd [e] remote (ghost (GFlush remote [e]) w) else
   let open :=
     match aget dest_eqb remote (queues w) with
     | Some c => match aget N.eqb c (collectors w) with
@@ -94,11 +96,15 @@ Definition queue_send (e : sdentry) (remote : dest) (w : world) : world :=
         (set_collectors (collectors w1 ++ [(tid, mkColl remote [e] false)]) w1)
   end.
 
+Definition queue_send (e : sdentry) (remote : dest) (w : world) : world :=
+  queue_core e remote (ghost (GQueue e remote) w).
+
 Definition collector_timeout (c : N) (w : world) : world :=
   match aget N.eqb c (collectors w) with
   | Some co =>
       send_sd (co_data co) (co_dest co)
-        (set_collectors (aset N.eqb c (mkColl (co_dest co) (co_data co) true) (collectors w)) w)
+        (set_collectors (aset N.eqb c (mkColl (co_dest co) (co_data co) true) (collectors w))
+                        (ghost (GFlush (co_dest co) (co_data co)) w))
   | None => w
   end.
 
